@@ -171,6 +171,31 @@ theorem split_blocks (data : Bytes) :
   · rw [List.length_take]; omega
   · rw [List.length_drop]; omega
 
+theorem tail32_java (t : Bytes) (h : Nat) (ht : ∀ b ∈ t, b < 128) : tail32 t h = javaTail32 t h := by
+  have sx : ∀ b ∈ t, sext8 b = b := fun b hb => by unfold sext8; simp [ht b hb]
+  rcases t with _ | ⟨x, _ | ⟨y, _ | ⟨z, _ | ⟨w, r⟩⟩⟩⟩
+  · rfl
+  · simp only [tail32, javaTail32, mul32, sx x (by simp)]
+  · simp only [tail32, javaTail32, mul32, shl32_8, sx x (by simp), sx y (by simp)]
+  · simp only [tail32, javaTail32, mul32, shl32_8, shl32_16, sx x (by simp), sx y (by simp), sx z (by simp)]
+  · simp only [tail32, javaTail32]
+
+/-- on inputs whose left-over bytes are all below 0x80 the Go function coincides with the stream-lib Java
+    port it was translated from (which sign-extends the tail bytes) -/
+theorem murmur32_blocks_java (B t : Bytes) (seed n : Nat) (hB : B.length = 4 * n) (ht : t.length < 4)
+    (hw : WFB (B ++ t)) (h7 : ∀ b ∈ t, b < 128) : murmur32 (B ++ t) seed = javaMurmur32 (B ++ t) seed := by
+  have ⟨hwB, hwt⟩ := WFB_append.mp hw
+  have ⟨e1, e2⟩ := walk4_app step32 step2 step32_eq n B t t (seed ^^^ ((B ++ t).length % 4294967296)) hB ht ht hwB
+  simp only [murmur32, javaMurmur32, blocks32, loop2, e1, e2, tail32_java t _ h7, fin32_eq]
+
+theorem murmur32_eq_java (data : Bytes) (seed : Nat) (hw : WFB data)
+    (h7 : ∀ b ∈ data.drop (data.length / 4 * 4), b < 128) : murmur32 data seed = javaMurmur32 data seed := by
+  have ⟨e, hB, ht⟩ := split_blocks data
+  have := murmur32_blocks_java (data.take (data.length / 4 * 4)) (data.drop (data.length / 4 * 4)) seed _ hB
+    (by omega) (by rw [← e]; exact hw) h7
+  rw [← e] at this
+  exact this
+
 theorem murmur32_eq_ref_swapTail (data : Bytes) (seed : Nat) (hw : WFB data) :
     murmur32 data seed = murmurHash2 (swapTail data) seed := by
   have ⟨e, hB, ht⟩ := split_blocks data
